@@ -309,7 +309,8 @@ func classifySinks(p *core.Prog, h *handlerInfo, sanitizer *ssa.Function) ([]sin
 					if sl, ok := src.(*ssa.Slice); (!ok || sl.High == nil) && !trimmed {
 						s.Class, s.Detail = "raw", "encoder output appended including its trailing newline"
 					}
-				} else if fn == sanitizer {
+				} else if fn == sanitizer || (sanitizer != nil && onlyCalledFrom(p, fn, map[*ssa.Function]bool{sanitizer: true})) {
+					// (also in a private helper of the escaping function: the escape-table rule evaluates the function with its helpers in place)
 					// raw runs of the input and computed escape bytes: validated character by character by the escape-table rule
 					s.Class = "sanitizer-internal"
 				} else {
